@@ -2,6 +2,7 @@
    (prior byte, argument), wider fields by little-endian round-trip lemmas, text forms by induction on bytes. *)
 From Coq Require Import NArith ZArith List Bool Lia Arith ZifyBool ZifyNat ZifyN.
 From LoraV Require Import Base.Bytes Model.MacCmd Model.MacFields Gen.CmdTables Proofs.BytesProofs Proofs.MacCmdProofs.
+From LoraV Require Export Proofs.SeqBuildProofs.
 Import ListNotations.
 Ltac Zify.zify_post_hook ::= Z.to_euclidean_division_equations.
 Local Open Scope N_scope.
@@ -208,28 +209,4 @@ Proof.
     destruct (hex_digit (b / 16) =? 43) eqn:E43; [|exact Hp].
     apply N.eqb_eq in E43. exfalso.
     apply (hex_digit_not_plus (b / 16)); [apply N.div_lt_upper_bound; lia | exact E43].
-Qed.
-
-(* ---- sequences: a stream built from whole commands of a table parses back to exactly those commands *)
-Theorem build_parse_sequence (t : table) : forall (cmds : list (N * list N)),
-  Forall (fun cp => exists h, lookup t (fst cp) = Some (fst cp, Some (length (snd cp)), h)) cmds ->
-  parse_all t (flat_map (fun cp => fst cp :: snd cp) cmds) = map (fun cp => IOk (fst cp) (snd cp)) cmds.
-Proof.
-  intros cmds HF. unfold parse_all.
-  set (data := flat_map (fun cp => fst cp :: snd cp) cmds).
-  assert (G : forall cmds fuel, Forall (fun cp => exists h, lookup t (fst cp) = Some (fst cp, Some (length (snd cp)), h)) cmds ->
-              (length (flat_map (fun cp : N * list N => fst cp :: snd cp) cmds) < fuel)%nat ->
-              collect t fuel (flat_map (fun cp => fst cp :: snd cp) cmds, false) = map (fun cp => IOk (fst cp) (snd cp)) cmds).
-  { clear. induction cmds as [|[cid p] cmds IH]; intros fuel HF Hf.
-    - destruct fuel; reflexivity.
-    - destruct fuel as [|f]; [lia|]. inversion HF as [|? ? [h Hlk] HF']; subst. cbn [fst snd] in *.
-      cbn [flat_map app collect next orb length Nat.eqb fst snd].
-      unfold parse_one. cbn [length]. rewrite Hlk.
-      rewrite app_length. cbn [length].
-      destruct (Nat.ltb _ _) eqn:E; [apply Nat.ltb_lt in E; lia|].
-      rewrite firstn_app_exact. cbn [map fst snd]. f_equal.
-      replace (skipn (1 + length p) (cid :: p ++ flat_map (fun cp : N * list N => fst cp :: snd cp) cmds))
-        with (flat_map (fun cp : N * list N => fst cp :: snd cp) cmds) by (cbn [skipn Nat.add]; now rewrite skipn_app_exact).
-      apply IH; [exact HF'|]. cbn [flat_map length app] in Hf. rewrite app_length in Hf. lia. }
-  subst data. apply G; [exact HF | lia].
 Qed.
